@@ -34,7 +34,7 @@ REQUIRED_BUCKETS = {t: ["rotation:compared", "rotation:origin-cuts-gene", "rotat
                         "rotation:skipped-large-region", "order:permutations", "order:subselections", "rotation:candidates>1", "rotation:gene-with-long-intron"]
                     for t in ("quick", "thorough")}
 GAPS = (0, 1, 2, 3, 4, 6)
-N_CHUNKS = 16
+N_CHUNKS = 32
 
 
 def gap_layouts(L, k, first=5):
@@ -158,17 +158,17 @@ def shards(tier):
     lengths = (24,) if tier == "quick" else (24, 25)
     for L in lengths:
         for fam in families(tier):
-            nchunks = 2 if fam[0].startswith("chain") else N_CHUNKS
+            nchunks = 4 if fam[0].startswith("chain") else N_CHUNKS
             for chunk in range(nchunks):
                 out.append(["rotation", L, fam[0], chunk, nchunks, tier])
     for fam in ("mixed", "cond-a-not-b", "cond-cds-a-and-b"):
-        for chunk in range(4):
-            out.append(["rotation-intron", 24, fam, chunk, 4, tier])
+        for chunk in range(8):
+            out.append(["rotation-intron", 24, fam, chunk, 8, tier])
     for L in lengths[:1]:
         for circ in (False, True):
             for fam in ("mixed", "superiors", "mixed4"):
-                for chunk in range(4):
-                    out.append(["order", L, circ, fam, chunk, 4, tier])
+                for chunk in range(16):
+                    out.append(["order", L, circ, fam, chunk, 16, tier])
     return out
 
 
